@@ -1,7 +1,7 @@
 PROPS['C05'] = dict(
     level='exploration',
     technique='rapidcheck stateful generation of init / compute / accessor histories on the six Krylov solver classes with counting user operators; exact bookkeeping oracles plus a Rayleigh-quotient pairing oracle in long double',
-    level_text='(A quarter of the cases run the five generalized symmetric modes through the library wrappers with the same clauses; ordering is checked on the back-transformed values and pairing through the Rayleigh quotient of the mode\'s operator in its inner product.) Random search with shrinking over the six Arnoldi/Lanczos solver classes (counting user-functor operators, incl. shift-and-invert functors) x matrix recipes x legal (nev, ncv) x supported (selection, sorting) '
+    level_text='(One in eight cases of the plain symmetric / Hermitian / general solvers is scaled by 1e+-150..250 (float: 1e20..1e30), where squares of eigenvalues leave the floating-point range while the matrix is representable. A quarter of the cases run the five generalized symmetric modes through the library wrappers with the same clauses; ordering is checked on the back-transformed values and pairing through the Rayleigh quotient of the mode\'s operator in its inner product.) Random search with shrinking over the six Arnoldi/Lanczos solver classes (counting user-functor operators, incl. shift-and-invert functors) x matrix recipes x legal (nev, ncv) x supported (selection, sorting) '
                'x maxit in {0,1,2,3,5,1000} x tol 1e-14..1e-2 (to force partial convergence) x histories of up to 5 init / compute / accessor calls. After every compute(): return value = eigenvalues().size() = '
                'eigenvectors().cols() <= nev; Successful iff that number is nev, else NotConverging; eigenvectors(m) = first min(m, count) columns (to 8 n eps; the product V*Y is evaluated with another shape) for m = 0..nev+2; values in the order of the sorting rule; '
                'the Rayleigh quotient of column i through the iterated operator equals nu(lambda_i) (pairing, valid for every Ritz pair converged or not); num_operations() = applications counted by the operator since init() '
@@ -12,7 +12,7 @@ PROPS['C05'] = dict(
         quick=[dict(unit='c05', cases=8000, workers=4)],
         thorough=[dict(unit='c05', cases=40000, workers='all')],
     ),
-    min=dict(quick=dict(cases=12000, nontrivial=4000, classes={'partial_convergence': 500, 'maxit<=1': 2000, 'accessor_between_computes': 300, 'GenEigsComplexShiftSolver': 800, 'SymGEigsShiftSolver<Cayley>': 300, 'SymGEigsShiftSolver<Buckling>': 300}),
+    min=dict(quick=dict(cases=12000, nontrivial=4000, classes={'partial_convergence': 500, 'maxit<=1': 2000, 'accessor_between_computes': 300, 'GenEigsComplexShiftSolver': 800, 'SymGEigsShiftSolver<Cayley>': 300, 'SymGEigsShiftSolver<Buckling>': 300, 'extreme_scale/tiny': 150, 'extreme_scale/huge': 300}),
              thorough=dict(cases=400000, nontrivial=150000)),
     rule='case = (solver class, matrix recipe, n <= 24, nev, ncv, shift, history of init / compute(selection, sorting, maxit, tol) / accessor ops). Non-trivial = a compute returned 0 < count < nev, or maxit <= 1, '
          'or accessors were called between computes; distinct = 64-bit hash of the draw log.',
